@@ -193,10 +193,11 @@ fn parse_signed_time_str(timestamp: &str) -> i64 {
     let offset_timestamp = if timestamp_is_neg { 1_usize } else { 0 };
     let dot_idx = timestamp.find('.').unwrap_or(timestamp.len());
 
+    // the number of digits is not limited by the regex, so avoid overflows:
     let timestamp_secs_us: i64 = timestamp[offset_timestamp..dot_idx]
         .parse::<i64>()
         .unwrap_or_default()
-        * (US_PER_SEC as i64);
+        .saturating_mul(US_PER_SEC as i64);
     let timestamp_fraction_us = if dot_idx < timestamp.len() {
         let timestamp_fraction_str = &timestamp[dot_idx + 1..];
         let mut len_fraction = timestamp_fraction_str.len();
@@ -216,7 +217,7 @@ fn parse_signed_time_str(timestamp: &str) -> i64 {
     } else {
         0
     };
-    let timestamp_us = timestamp_secs_us + timestamp_fraction_us;
+    let timestamp_us = timestamp_secs_us.saturating_add(timestamp_fraction_us);
     if timestamp_is_neg {
         -timestamp_us
     } else {
